@@ -120,6 +120,12 @@ def run(fx, chk, tier):
                 for c_ in clos:
                     closure_ok[c_["def"]] = "Result returned through %s" % m_
                 fallible_combinators.add(id(n_))
+            elif m_ in ("then", "map") and len(ps_) >= 2 and ps_[-1].get("k") == "mcall" and ps_[-1].get("m") == "transpose" and ps_[-1].get("recv") is n_ and ps_[-2].get("k") == "try":
+                # `cond.then(|| reader.read_u32()).transpose()?` / `opt.map(|x| read(x)).transpose()?`: the closure's Result
+                # is the payload of the Option, transpose turns it into Result<Option<_>>, and `?` propagates it
+                for c_ in clos:
+                    closure_ok[c_["def"]] = "Option<Result> transposed and propagated with `?`"
+                fallible_combinators.add(id(ps_[-1]))
             elif m_ == "map":
                 par_ = ps_[-1] if ps_ else None
                 if par_ is not None and par_.get("k") == "mcall" and par_.get("recv") is n_ and par_.get("m") == "collect" and is_result(par_.get("ty", "")):
